@@ -106,5 +106,8 @@ def run(ctx, rep):
             if miss:
                 raise AnalysisBroken('command %s no longer reaches its required effects %s (analysis blind?)' % (cmd, sorted(miss)))
             rep.ok('R-C12-2', cmd, 'effects %s; %d contexts, %d functions' % (sorted(classes - ALWAYS), len(seen), len(fns)))
+    # fix removes, at exit, only files it created in this run: the flag behind that decision is sound
+    from .C07 import rule_created_reset
+    rule_created_reset(P, rep, 'R-C12-7')
     rep.extra['effects_per_command'] = summary
     rep.extra['write_sites'] = len(sites)
